@@ -19,3 +19,17 @@ package vgirpc
 //@ func (*HttpServer).handleStreamExchange
 //@   property C37
 //@   at call (*HttpServer).writeHttpError after (*HttpServer).startDispatchHook assert [erragree] handlerErr != nil
+
+// handleExchangeCall returns the error the dispatch hook's end callback receives (the caller
+// stores it in handlerErr). Whenever the turn answered with an error batch — the handler failed
+// or panicked, emitted no data batch, the cursor could not be sealed, or a response cap was
+// overshot — that returned error is non-nil.
+//
+//@ func (*HttpServer).handleExchangeCall
+//@   property C37
+//@   pathflag errResp
+//@   at call writeErrorBatch mark errResp
+//@   at call (*HttpServer).writeExchangeCapError mark errResp
+//@   at call writeErrorBatch assert [reported] arg2 != nil
+//@   at call (*HttpServer).writeExchangeCapError assert [reportedcap] arg4 != nil
+//@   ensures [local_erragree] errResp ==> result != nil
